@@ -9,7 +9,7 @@ PID = "C18"
 MODULES = ["GroupbyVerif.Props.C18"]
 RULE = ("the full table (public operation x array argument x perturbation) is enumerated in both tiers: ~45 operations (all GroupBy reductions, "
         "transform, var/std/median/quantile/apply/agg/ratio/subset_ratio/density, cumulative, rolling, shift/diff, ema with times, head/tail/nth, "
-        "group_nearby_members, crosstab, and the top-level ema / ema_grouped) x each of their array arguments (values, second values, boolean mask, "
+        "group_nearby_members, crosstab, and the top-level ema / ema_grouped) x each of their array arguments (values, second values, boolean mask - numpy bool, and for eleven operations also pandas nullable boolean and arrow-backed bool Series -, "
         "timestamps) x {length off by -3..+3, permuted / shifted / duplicated pandas index (all arguments pandas objects, or only the keys and the perturbed argument)}; rolling / ema also in the group-sorted output layout (index_by_groups=True); the operations accepting them also with datetime64 (naive and tz-aware), timedelta64, int32 and bool values, and values given as DataFrame / list of two inputs / polars, and a misaligned second key; expected outcome: an exception for every misaligned argument, "
         "a result for the aligned call; base data varies with the seed; non-trivial = every perturbed call; distinct = distinct (operation, argument, perturbation)")
 ASSUMPTIONS = ["the untimed top-level ema(values) has a single array argument, so nothing to be misaligned with: only its aligned call is exercised",
